@@ -15,7 +15,7 @@ func init() { register("C19", checkC19) }
 func checkC19(c *Ctx) {
 	r := c.R
 	r.Explanation = "Structural necessary conditions of the tag rules and of search scoping: (1) client tag writes: every result of normalizeTags() that flows into stored or cached tags (types.User.Tags, types.Topic.Tags, Topic.tags, a \"Tags\" update key) does so only behind restrictedTagsEqual(.., globals.immutableTagNS)==true; every assignment of those sinks in package server takes a value from normalizeTags, from the stored record, or from the credential machinery (census with roles); (2) search: Users.FindSubs is cut off unless the query parser returned no error and the list of restricted terms the user does not carry is empty; that list is computed by filterRestrictedTags over both the required and the optional terms of the parsed query with globals.maskedTagNS and compared with the user's own tags; required/optional terms handed to the store are the parser's results; the activeOnly argument is `session level != LevelRoot`; (3) group tags can be read/written only by the owner (shared with C06)."
-	r.NotDecided = []string{"the query grammar (hand-written lexer/parser over all strings): parse results for malformed queries are a value-level question", "tag normalisation laws beyond the order of folding and sorting", "validator rewriting of e-mail/phone/login terms"}
+	r.NotDecided = []string{"the query grammar (hand-written lexer/parser over all strings): parse results for malformed queries are a value-level question - except the one structural clause of C19.5 (which variable the repeated-operator refusal consults)", "tag normalisation laws beyond the order of folding and sorting", "validator rewriting of e-mail/phone/login terms"}
 	r.Trusted = []string{"go/types, go/ssa"}
 
 	c.checkTagWrites()
